@@ -9,7 +9,7 @@ from vlib import core, dom
 
 ID = "C05"
 GEN = ["forecast", "reservoir"]
-PROPS = ["C05_forecast.v", "C05_interpolator.v", "C05_signatures.v"]
+PROPS = ["C05_forecast.v", "C05_interpolator.v", "C05_signatures.v", "C05_fit_scaling.v"]
 
 
 def curves(rng):
